@@ -28,6 +28,30 @@ def generate(seed, tier):
         ss = r["layers"][-1]["ss"]
         align = rng.choice([8192] * 5 + [4096, 65536, 1 << 20] + ([512, 1536] if ss == 512 else [12288]))
         cases.append({"id": f"g{i}", "recipe": r, "align": align, "queries": gen_vhdx.gen_queries(rng, r, 8 if tier == "quick" else 14)})
+    # --- geometry edges that random recipes do not reach
+    MB = 1 << 20
+    for k, (bs, ss, nb, shape) in enumerate([
+            (MB, 512, 1030, "many"), (MB, 512, 520, "many"),            # more BAT entries than a 512-entry page, consecutive placement
+            (32 * MB, 512, 130056, "fill"), (MB, 512, 131041, "fill"),  # BAT exactly fills its 1 MiB region (entry 131072 is the last)
+            (MB, 4096, 131068, "fill")][: (5 if tier != "quick" else 4)]):
+        l = gen_vhdx.gen_layer(rng, nb * bs, bs, ss, False, tier, rng.randrange(256))
+        if shape == "many":
+            l["blocks"] = [6] * nb
+            l["phys"] = {str(b): b for b in range(nb)}
+            marks = [b for b in range(512, nb, 512)] + [nb - 1]
+        else:
+            ratio = (2 ** 23 * ss) // bs
+            keep = sorted({0, 1, ratio - 1, ratio, ratio + 1, nb // 2, nb - 2, nb - 1} & set(range(nb)))
+            l["blocks"] = [0] * nb
+            for b in keep:
+                l["blocks"][b] = 6
+            l["phys"] = {str(b): i for i, b in enumerate(keep)}
+            marks = keep
+        l["bitmaps"], l["extra_bat"], l["stale_adjacent"] = {}, 0, False
+        qs = []
+        for b in marks:
+            qs += [["o", max(0, b * bs - 8192), 16384], ["o", b * bs, 4096], ["o", max(0, b * bs - 3 * 8192), 5 * 8192]]
+        cases.append({"id": f"edge{k}", "recipe": {"layers": [l]}, "align": 8192, "queries": qs[:18]})
     return cases
 
 
